@@ -135,6 +135,7 @@ def register(reg):
 
     register_order(reg)
     register_order_steps(reg)
+    register_small_steps(reg)
 
 
 KEYS_C19 = ["PandasModel.clean_copy", "PandasModel._table_step"]
@@ -381,3 +382,134 @@ def register_order_steps(reg):
 
 
 KEYS_C18_STEPS = ["PandasModel._order_rows_step", "PolarsModel._order_rows_step"]
+
+
+# ====================================================================== C08 / C09 / C19: small executor steps (what they hand to the frame library)
+def register_small_steps(reg):
+    import z3
+    from pyvc.api import Contract, T, VDict, VList, VNone, VOpt, VPy, VScalar, VSet, VStr, VTuple, fresh_name
+    from contracts.vr_common import COLS, NODE, EXPR, register_classes
+    register_classes(reg)
+    FRAME = T.opaque("Frame")
+    PM = T.obj("PandasModel")
+    PL = T.obj("PolarsModel")
+    reg.classes["PolarsModel"].fields.setdefault("use_lazy_eval", T.bool)
+    Unsupported = __import__("pyvc.engine", fromlist=["Unsupported"]).Unsupported
+    S_ = None
+
+    def srcf(S):
+        return S.func("evaluated_source_frame", z3.IntSort(), S.sort("Frame"))
+
+    def nrows(S):
+        return S.func("frame_nrows", S.sort("Frame"), z3.IntSort())
+
+    def owned(S):
+        return S.func("is_fresh_frame_owned_by_the_executor", S.sort("Frame"), z3.BoolSort())
+
+    def reset(S):
+        return S.func("frame_reset_index_drop", S.sort("Frame"), S.sort("Frame"))
+
+    def colsel(S):
+        return S.func("frame_select_columns", S.sort("Frame"), z3.ArraySort(z3.IntSort(), S.Atom), z3.IntSort(), S.sort("Frame"))
+
+    def rowsel(S):
+        return S.func("frame_loc_rows", S.sort("Frame"), S.sort("RowMask"), S.sort("Frame"))
+
+    def acton(S):
+        return S.func("expr_act_on_frame", S.sort("Expr"), S.sort("Frame"), S.sort("RowMask"))
+
+    def renamef(S):
+        return S.func("frame_rename_columns", S.sort("Frame"), z3.ArraySort(S.Atom, z3.BoolSort()), z3.ArraySort(S.Atom, S.Atom), S.sort("Frame"))
+
+    # frame[list of columns]
+    def getitem_hook(eng, st, cont, key, node):
+        if isinstance(cont, VScalar) and cont.ty.kind == "opaque" and cont.ty.name == "Frame" and isinstance(key, (VList, VTuple)):
+            l = eng.list_of(key, st, node)
+            eng.registry.note("assumed pandas contract: df[list of columns] is a function of (df, that list) -- the listed columns in the listed order")
+            return [(st, VScalar(colsel(eng.S)(cont.z, l.arr, l.n), FRAME))]
+        if isinstance(cont, VPy) and isinstance(cont.obj, tuple) and cont.obj[0] == "frameloc" and isinstance(key, VTuple) and len(key.items) == 2 \
+                and isinstance(key.items[0], VScalar) and key.items[0].ty.kind == "opaque" and key.items[0].ty.name == "RowMask":
+            return [(st, VScalar(rowsel(eng.S)(cont.obj[1].z, key.items[0].z), FRAME))]
+        return None
+
+    reg.subscript_hooks = [getitem_hook] + getattr(reg, "subscript_hooks", [])
+
+    def act_on_apply(eng, st, argmap, node):
+        eng.registry.note("assumed: expr.act_on(frame) is a function of (expression, frame) giving a row mask")
+        return [(st, VScalar(acton(eng.S)(argmap["self"].z, argmap["arg"].z), T.opaque("RowMask")))]
+
+    reg.opaque_methods[("Expr", "act_on")] = Contract(key="Expr.act_on", params={"arg": FRAME}, assumed=True, apply=act_on_apply)
+
+    def rename_apply(eng, st, argmap, node):
+        m = argmap["columns"]
+        return [(st, VScalar(renamef(eng.S)(argmap["self"].z, m.dom, m.val), FRAME))]
+
+    reg.opaque_methods[("Frame", "rename")] = Contract(key="Frame.rename", params={"columns": T.dict(T.atom, T.atom)}, assumed=True, apply=rename_apply)
+    reg.opaque_methods[("Frame", "lazy")] = Contract(key="Frame.lazy", params={}, assumed=True,
+                                                     apply=lambda eng, st, argmap, node: [(st, VScalar(eng.S.func("frame_lazy", eng.S.sort("Frame"), eng.S.sort("Frame"))(argmap["self"].z), FRAME))])
+    reg.opaque_methods[("Frame", "select")] = Contract(key="Frame.select", params={"cols": COLS}, assumed=True,
+                                                       apply=lambda eng, st, argmap, node: [(st, VScalar(colsel(eng.S)(argmap["self"].z, eng.list_of(argmap["cols"], st, node).arr, eng.list_of(argmap["cols"], st, node).n), FRAME))])
+    reg.globals[("isinstance", "Frame", "LazyFrame")] = lambda eng, st, v: eng.S.func("frame_is_lazy", eng.S.sort("Frame"), z3.BoolSort())(v.z)
+
+    req = lambda name: (lambda c: [("node-kind", c.field(c.op, "node_name").z == c.S.str_const(name)), ("one-source", c.field(c.op, "sources").n == 1), ("node-allocated", c.eng.allocated(c.st, c.op))])
+
+    def src0(c):
+        return srcf(c.S)(c.field(c.op, "sources").arr[0])
+
+    def sel_rows_ens(c):
+        S = c.S
+        if c.raised:
+            return []
+        f0 = src0(c)
+        want = z3.If(nrows(S)(f0) < 1, f0, reset(S)(rowsel(S)(f0, acton(S)(c.field(c.op, "expr").z, f0))))
+        return [("rows-selected-by-the-node's-expression-on-the-evaluated-source, returned as a fresh index-free copy", c.result.z == want)]
+
+    reg.add(Contract(key="PandasModel._select_rows_step", file="data_algebra/pandas_base.py", qualname="PandasModelBase._select_rows_step", cls="PandasModel",
+                     params={"self": PM, "op": T.obj("SelectRowsNode"), "data_map": T.dict(T.atom, FRAME)}, returns=FRAME, requires=req("SelectRowsNode"), ensures=sel_rows_ens))
+
+    def sel_cols_ens(c):
+        if c.raised:
+            return []
+        l = c.field(c.op, "column_selection")
+        return [("exactly-the-selected-columns-in-the-selected-order", c.result.z == colsel(c.S)(src0(c), l.arr, l.n))]
+
+    reg.add(Contract(key="PandasModel._select_columns_step", file="data_algebra/pandas_base.py", qualname="PandasModelBase._select_columns_step", cls="PandasModel",
+                     params={"self": PM, "op": T.obj("SelectColumnsNode"), "data_map": T.dict(T.atom, FRAME)}, returns=FRAME, requires=req("SelectColumnsNode"), ensures=sel_cols_ens))
+
+    def rename_ens(c):
+        if c.raised:
+            return []
+        m = c.field(c.op, "reverse_mapping")
+        return [("renamed-with-the-old->new-mapping-of-the-node", c.result.z == renamef(c.S)(src0(c), m.dom, m.val))]
+
+    reg.add(Contract(key="PandasModel._rename_columns_step", file="data_algebra/pandas_base.py", qualname="PandasModelBase._rename_columns_step", cls="PandasModel",
+                     params={"self": PM, "op": T.obj("RenameColumnsNode"), "data_map": T.dict(T.atom, FRAME)}, returns=FRAME, requires=req("RenameColumnsNode"), ensures=rename_ens))
+
+    # polars _table_step: ALWAYS narrows / orders to the declared columns, lazily when asked
+    reg.add(Contract(key="PolarsModel.is_appropriate_data_instance", cls="PolarsModel", params={"self": PL, "df": FRAME}, assumed=True,
+                     apply=lambda eng, st, argmap, node: [(st, VScalar(eng.S.func("polars_is_appropriate_data_instance", eng.S.sort("Frame"), z3.BoolSort())(argmap["df"].z), T.bool))]))
+
+    def cols_produced_apply(eng, st, argmap, node):
+        cn = eng.read_field(st, argmap["self"], "column_names")
+        return [(st, VList(cn.n, cn.arr, COLS))]
+
+    reg.add(Contract(key="ViewRepresentation.columns_produced", cls="ViewRepresentation", params={"self": NODE}, assumed=True, apply=cols_produced_apply,
+                     note="columns_produced() = list(column_names) (one line)"))
+
+    def pl_table_ens(c):
+        S = c.S
+        if c.raised:
+            return []
+        d = c.data_map.val[c.field(c.op, "table_name").z]
+        lazy = S.func("frame_lazy", S.sort("Frame"), S.sort("Frame"))
+        is_lazy = S.func("frame_is_lazy", S.sort("Frame"), z3.BoolSort())
+        cn = c.field(c.op, "column_names")
+        base = z3.If(z3.And(c.field(c.self, "use_lazy_eval").z, z3.Not(is_lazy(d))), lazy(d), d)
+        return [("always-narrowed-and-ordered-to-the-declared-columns (eager or lazy input)", c.result.z == colsel(S)(base, cn.arr, cn.n))]
+
+    reg.add(Contract(key="PolarsModel._table_step", file="data_algebra/polars_model.py", qualname="PolarsModel._table_step", cls="PolarsModel",
+                     params={"self": PL, "op": T.obj("TableDescription"), "data_map": T.dict(T.atom, FRAME)}, returns=FRAME,
+                     requires=lambda c: [("node-kind", c.field(c.op, "node_name").z == c.S.str_const("TableDescription")), ("node-allocated", c.eng.allocated(c.st, c.op))], ensures=pl_table_ens))
+
+
+KEYS_SMALL_STEPS = ["PandasModel._select_rows_step", "PandasModel._select_columns_step", "PandasModel._rename_columns_step", "PolarsModel._table_step"]
